@@ -264,6 +264,10 @@ impl<'a> df::raw::CallbackReadData for MemData<'a> {
 
 /// Everything `datafile::raw::Reader` exposes, on an in-memory image.
 pub fn observe_raw(bytes: &[u8], probes: &[(u16, u16)]) -> Value {
+    observe_raw_opt(bytes, probes, true)
+}
+
+pub fn observe_raw_opt(bytes: &[u8], probes: &[(u16, u16)], with_data: bool) -> Value {
     stage("raw:new");
     let mut cb = MemNew { b: bytes, pos: 0, seek_base: None };
     let r = match df::raw::Reader::new(&mut cb) {
@@ -300,7 +304,7 @@ pub fn observe_raw(bytes: &[u8], probes: &[(u16, u16)]) -> Value {
         .collect();
     stage("raw:read_data");
     let mut cd = MemData { b: bytes, seek_base, buf: Vec::new() };
-    let data: Vec<Value> = (0..r.num_data())
+    let data: Vec<Value> = (0..if with_data { r.num_data() } else { 0 })
         .map(|k| match r.read_data(&mut cd, k) {
             Ok(()) => json!({"r": "ok", "b": std::mem::take(&mut cd.buf)}),
             Err(e) => json!({"r": raw_err_kind(&e), "b": []}),
@@ -321,7 +325,7 @@ fn data_eq(exp: &Value, act: &Value) -> bool {
         _ => return false,
     };
     e.len() == a.len()
-        && e.iter().zip(a).all(|(x, y)| x["r"] == "unspec" || canon(x) == canon(y))
+        && e.iter().zip(a).all(|(x, y)| x["r"] == "unspec" || x == y)
 }
 
 /// Returns the list of fields in which the observation differs from the expected verdict.
@@ -335,13 +339,13 @@ pub fn diff(exp: &Value, act: &Value) -> Vec<String> {
         return d;
     }
     for k in ["ver", "types", "ranges", "items", "by_type", "absent", "find"] {
-        if canon(&exp[k]) != canon(&act[k]) {
+        if exp[k] != act[k] {
             d.push(k.to_string());
         }
     }
     // the redundant accessors must agree with the primary ones
     for (k, k2) in [("types", "types2"), ("items", "items2")] {
-        if !act[k2].is_null() && canon(&exp[k]) != canon(&act[k2]) {
+        if !act[k2].is_null() && exp[k] != act[k2] {
             d.push(k2.to_string());
         }
     }
@@ -562,6 +566,60 @@ fn cmd_replay(workdir: &str) {
     out.flush().unwrap();
 }
 
+/// `replay-mem`: the in-memory reader only (no file system, no FFI for version 3 files), used as
+/// the program that Miri interprets: undefined behaviour on a TLC-generated case (out-of-bounds or
+/// uninitialised read, misaligned reference) aborts the interpreter with an error.
+fn cmd_replay_mem() {
+    let stdin = std::io::stdin();
+    let (mut n, mut bad) = (0u64, 0u64);
+    for line in stdin.lock().lines() {
+        let line = match line {
+            Ok(l) => l,
+            Err(_) => break,
+        };
+        if !line.starts_with("<<\"C\"") {
+            continue;
+        }
+        let parts = vh_common::parse_tlc_tuple(&line).unwrap_or_default();
+        if parts.len() != 2 {
+            continue;
+        }
+        let case: Value = match serde_json::from_str(&parts[1]) {
+            Ok(c) => c,
+            Err(_) => continue,
+        };
+        let bytes = write_layout(&case["L"]);
+        let exp = &case["exp"];
+        let probes = probes_of(exp);
+        // zlib is foreign code: data blocks are only read for version 3 under the interpreter
+        let with_data = !cfg!(miri) || geti(&case, "v") == 3;
+        let o = match vh_common::catch(|| observe_raw_opt(&bytes, &probes, with_data)) {
+            Ok(v) => v,
+            Err(msg) => json!({"open": "panic", "msg": msg}),
+        };
+        n += 1;
+        let mut d = diff(exp, &o);
+        if !with_data {
+            d.retain(|f| f != "data");
+        }
+        if !d.is_empty() || o["open"] == "panic" {
+            bad += 1;
+            // (no serde_json number formatting here: its itoa 0.4 dependency uses
+            // mem::uninitialized, which the interpreter rejects although it is not under test)
+            println!(
+                "MEM-MISMATCH field={} fix={} v={} open={} msg={} diff={}",
+                case["c"]["f"].as_str().unwrap_or("?"),
+                case["c"]["fix"] == Value::Bool(true),
+                with_data,
+                o["open"].as_str().unwrap_or("?"),
+                o["msg"].as_str().unwrap_or(""),
+                d.join(",")
+            );
+        }
+    }
+    println!("MEM-SUMMARY cases={} mismatches={} miri={}", n, bad, cfg!(miri));
+}
+
 fn cmd_replay_one(workdir: &str, file: &str) {
     let v: Value = serde_json::from_str(&std::fs::read_to_string(file).unwrap()).unwrap();
     let case = if v["replay"].is_object() { v["replay"].clone() } else { v };
@@ -618,11 +676,14 @@ fn main() {
         Box::new(NullLogger)
     });
     vh_common::quiet_panics();
-    vh_common::start_watchdog();
+    if !cfg!(miri) {
+        vh_common::start_watchdog();
+    }
     let args: Vec<String> = std::env::args().collect();
     match args.get(1).map(|s| s.as_str()) {
         Some("replay") => cmd_replay(&args[2]),
         Some("replay-one") => cmd_replay_one(&args[2], &args[3]),
+        Some("replay-mem") => cmd_replay_mem(),
         Some("drive") => drive::cmd_drive(&args[2..]),
         Some("map-replay") => mapobs::cmd_map_replay(&args[2], &args[3]),
         _ => {
